@@ -105,4 +105,11 @@ def dumpDataDir (rr : RowReader) (π : MapOrder TableInfo) (fs : Bytes → Optio
     let r ← collectM (dumpDb rr π fs opts) dbs
     pure (some r)
 
+/-- the TableInfo `classStep` builds from a row -/
+def infoOfRow (row : Row) : TableInfo :=
+  ⟨getOID row "oid", getOID row "relfilenode", getString row "relname", getString row "relkind"⟩
+
+/-- the TableInfo a correct row reader must lead to for a pg_class row (used as the reader hypothesis of C01) -/
+def infoOfRel (r : Spec.ClassRow) : TableInfo := ⟨r.oid, r.filenode, r.name, [UInt8.ofNat r.kind]⟩
+
 end PgVerif.Model
